@@ -12,7 +12,10 @@ import (
 func (g *Gen) expArg(op string) d128.Decimal {
 	neg := g.r.Intn(2) == 0
 	thr := map[string][2]float64{"Exp": {14149.6, 14221}, "Exp2": {20413.6, 20516}, "Exp10": {6145.11, 6177}, "Expm1": {14149.6, 80}}[op]
-	switch g.r.Intn(9) {
+	switch g.r.Intn(10) {
+	case 9: // moderate arguments, uniformly in [-300, 300]: where e^x - 1 saturates at -1 and where e^x crosses the digit boundaries
+		v := g.r.Intn(600001) - 300000
+		return mk(v < 0, big.NewInt(int64(absInt(v))), -3)
 	case 0: // tiny magnitudes 10^-k over the whole range
 		k := g.r.Intn(6177)
 		if g.r.Intn(2) == 0 {
